@@ -53,6 +53,10 @@ type Doc struct {
 	// the document carries proposer-specific entries (by public key and by account expression) even
 	// when it makes nobody unresolvable; documents with unresolvable validators always carry them
 	Entries bool `json:"entries,omitempty"`
+	// an unversioned (version 1) document: default configuration plus one entry per validator 1..4.
+	// Version 1 never asks the account for its name, so requests cannot be held inside the read lock
+	// while such a document is active: only scenarios without gated requests use it.
+	V1 bool `json:"v1,omitempty"`
 }
 
 type Cmd struct {
@@ -272,6 +276,20 @@ const baseMarker = uint64(1) << 40
 
 func docJSON(d *Doc) []byte {
 	var b strings.Builder
+	if d.V1 {
+		entry := fmt.Sprintf(`{"fee_recipient":"%s","gas_limit":"30000000","builder":{"enabled":%v,"relays":["%s"]}}`,
+			docFee(d.ID), d.Relay, relayAddress)
+		fmt.Fprintf(&b, `{"default_config":%s,"proposer_config":{`, entry)
+		for v := uint64(1); v <= nValidators; v++ {
+			pk := pubkeyOf(v)
+			if v > 1 {
+				b.WriteString(",")
+			}
+			fmt.Fprintf(&b, `"%#x":%s`, pk[:], entry)
+		}
+		b.WriteString("}}")
+		return []byte(b.String())
+	}
 	bad := map[uint64]bool{}
 	for _, v := range d.Bad {
 		bad[v] = true
@@ -826,13 +844,20 @@ func gen(r *Rand, search bool) Scenario {
 		// queues behind the announced writer: then the whole group starts at the same instant.
 		s.URL = true
 		g.tags["burst"] = true
+		v1 := r.Chance(1, 5)
+		if v1 {
+			g.tags["version-1-documents"] = true
+		}
 		for round, rounds := 0, r.Range(1, 3); round < rounds; round++ {
-			queued := r.Chance(1, 2)
+			queued := r.Chance(1, 2) && !v1
 			if queued {
 				g.reader(true)
 			}
 			d := g.doc()
 			d.Entries = true
+			if v1 {
+				d = &Doc{ID: d.ID, Relay: d.Relay, V1: true}
+			}
 			g.add(Cmd{Op: "refresh", Fetch: "ok", Doc: d})
 			if queued {
 				g.inflight = append([]int{}, g.openGates...)
